@@ -111,7 +111,7 @@ def exact_step_history(args):
     ops, sizes = [], []
     # 127 small records, the 128th absorbs the rest
     for i in range(1, 128):
-        ln = rnd.choice([storerig.BLANK, 0, 5, 11])
+        ln = rnd.choice([storerig.BLANK] * 6 + [0, 5, 11]) if sum(sizes) < 12000 else storerig.BLANK
         sizes.append(storerig.rec_size(base, i, 1, ln))
         uid += 1
         ops.append({"op": "append", "index": i, "term": 1, "uid": uid, "len": ln})
